@@ -196,6 +196,21 @@ func c10run(o *out, c c10cfg) {
 	var clock, acks uint64
 	var panics int32
 	recs := make([][]c10add, c.G)
+	// progress of every producer in its own (padded) word: written by that producer only, so the
+	// harness adds no synchronisation between producers (which could hide races from the detector)
+	type padded struct {
+		n uint64
+		_ [7]uint64
+	}
+	prog := make([]padded, c.G)
+	progress := func() uint64 {
+		var t uint64
+		for i := range prog {
+			t += atomic.LoadUint64(&prog[i].n)
+		}
+		return t
+	}
+	buffered := c.mode == "buf"
 	seeds := make([]uint64, c.G+2)
 	for i := range seeds {
 		seeds[i] = r.u64()
@@ -220,11 +235,15 @@ func c10run(o *out, c c10cfg) {
 					}()
 					err = coll.Add(doc)
 				}()
-				st := atomic.AddUint64(&clock, 1)
-				if err == nil {
-					atomic.AddUint64(&acks, 1)
+				var st uint64
+				if buffered {
+					st = atomic.AddUint64(&clock, 1)
+					if err == nil {
+						atomic.AddUint64(&acks, 1)
+					}
 				}
 				recs[p] = append(recs[p], c10add{p, s, err == nil, st})
+				atomic.AddUint64(&prog[p].n, 1)
 				c10perturb(pr, c.perturb)
 			}
 		}(p)
@@ -305,12 +324,26 @@ func c10run(o *out, c c10cfg) {
 	}
 	prodDone := make(chan struct{})
 	go func() { prod.Wait(); close(prodDone) }()
+	// waits for the producers as long as they make progress; false = no Add returned for 20 s
+	waitProducers := func() bool {
+		last, since := progress(), time.Now()
+		for {
+			select {
+			case <-prodDone:
+				return true
+			case <-time.After(200 * time.Millisecond):
+			}
+			if n := progress(); n != last {
+				last, since = n, time.Now()
+			} else if time.Since(since) > 20*time.Second {
+				return false
+			}
+		}
+	}
 	if c.mode == "buf" {
 		switch c.cancel {
 		case "end":
-			select {
-			case <-prodDone:
-			case <-time.After(10 * time.Second):
+			if !waitProducers() {
 				hung = 1
 			}
 			doCancel()
@@ -336,10 +369,7 @@ func c10run(o *out, c c10cfg) {
 				doCancel()
 				reached = sc.waitStalled(2 * time.Second)
 				// producers keep going (send arm or ctx arm) while the drainer is stalled
-				select {
-				case <-prodDone:
-				case <-time.After(5 * time.Second):
-				}
+				waitProducers()
 				sc.releaseStall()
 			} else {
 				reached = sc.waitStalled(500 * time.Millisecond)
@@ -354,13 +384,11 @@ func c10run(o *out, c c10cfg) {
 		}
 		sc.releaseStall()
 	}
-	select {
-	case <-prodDone:
-	case <-time.After(10 * time.Second):
+	if !waitProducers() {
 		hung = 1
 	}
 	close(stop)
-	if !waitTimeout(&obs, 5*time.Second) {
+	if !waitTimeout(&obs, 120*time.Second) {
 		hung = 1
 	}
 
@@ -458,7 +486,7 @@ func c10run(o *out, c c10cfg) {
 
 	var ab strings.Builder
 	first := true
-	for p := 0; p < c.G; p++ {
+	for p := 0; p < c.G && hung == 0; p++ {
 		for _, a := range recs[p] {
 			if !first {
 				ab.WriteByte(',')
